@@ -1,6 +1,7 @@
 import PysphVerif.Driver.Common
 import PysphVerif.Model.Codegen
 import PysphVerif.Model.CodegenOpts
+import PysphVerif.Model.CodegenIter
 import PysphVerif.Gen.Precomp
 /-!
 Line protocol for C02 (names are identifiers, lists comma separated, `_` empty).
@@ -24,6 +25,14 @@ Line protocol for C02 (names are identifiers, lists comma separated, `_` empty).
     bool|int|float|str|numlist|list|tuple|object)
     → `last=<Class>{attr:ctype;…}|… merge=…`: the attribute declarations of the wrapper classes,
       typed from the last instance of each class name / from the widened representative
+* `iter kind=leaf|parent eqs=<var>:<0|1>,…[;<var>:<0|1>,…]`  (`;` separates sub-groups; the bit:
+    `converged` is in the `__dict__` of the object's own class)
+    → `polled=<names> cond=<text of get_converged_condition, blanks written ~>`
+* `sweeps min=<n> max=<n> conv=<bits>`  (bit k: value of the break test's factor after sweep k,
+    false beyond the list) → number of sweeps of the generated loop | `diverges`
+* `binding names=<names> A id=<n> props=<names> consts=<names> A …`  (the array first bound,
+    then those passed to `update_particle_arrays`, in order)
+    → per name the id of the array its wrapper attribute refers into (`-`: never bound)
 * `evalblock which=code|doc|conv sym=<S> d=<p>:<f>;… s=<p>:<f>;… st=<S>:<k>:<f>;…`
     → the values the block leaves in `S` (three components for vectors), at
       Float, with the stand-in functions documented in `fnStub`/`fnOutStub`
@@ -309,8 +318,72 @@ def handleEval (toks : List String) : String :=
     | _, _, _ => "bad-op"
   | _, _, _, _, _ => "bad-op"
 
+/-! iterated groups, wrapper binding -/
+
+def parseConvEq? (s : String) : Option ConvEq :=
+  match s.splitOn ":" with
+  | [v, b] => if v = "" then none else (parseBit? b).map (fun o => ⟨v, o⟩)
+  | _ => none
+
+def parseConvEqs? (s : String) : Option (List ConvEq) :=
+  if s = "_" then some [] else (s.splitOn ",").mapM parseConvEq?
+
+def handleIter (toks : List String) : String :=
+  let kv := kvs toks
+  match lookup kv "kind", lookup kv "eqs" with
+  | some kind, some eqs =>
+    let g? : Option IterGroup :=
+      if kind = "leaf" then (parseConvEqs? eqs).map .leaf
+      else if kind = "parent" then ((eqs.splitOn ";").mapM parseConvEqs?).map .parent
+      else none
+    (match g? with
+     | some g => "polled=" ++ showList id (polled g) ++ " cond=" ++
+         (convergedCondition g).replace " " "~"
+     | none => "bad-op")
+  | _, _ => "bad-op"
+
+def parseBits? (s : String) : Option (List Bool) :=
+  if s = "_" then some [] else s.toList.mapM (fun c => parseBit? c.toString)
+
+def handleSweeps (toks : List String) : String :=
+  let kv := kvs toks
+  match (lookup kv "min") >>= String.toNat?, (lookup kv "max") >>= String.toNat?,
+        (lookup kv "conv") >>= parseBits? with
+  | some mn, some mx, some bits =>
+    (match sweeps mn mx (fun k => if k = 0 then false else (bits.getD (k - 1) false)) with
+     | some k => toString k
+     | none => "diverges")
+  | _, _, _ => "bad-op"
+
+def splitOnTok (toks : List String) (sep : String) : List (List String) :=
+  (toks.foldl (fun (acc : List (List String)) t =>
+    if t = sep then [] :: acc
+    else match acc with
+      | cur :: rest => (cur ++ [t]) :: rest
+      | [] => []) []).reverse
+
+def parsePArrObj? (toks : List String) : Option PArrObj :=
+  let kv := kvs toks
+  match (lookup kv "id") >>= String.toNat?, (lookup kv "props") >>= names?,
+        (lookup kv "consts") >>= names? with
+  | some i, some p, some c => some ⟨i, p, c⟩
+  | _, _, _ => none
+
+def handleBinding (toks : List String) : String :=
+  match toks with
+  | nm :: "A" :: rest =>
+    (match (lookup (kvs [nm]) "names") >>= names?, (splitOnTok ("A" :: rest) "A").mapM parsePArrObj? with
+     | some names, some (first :: later) =>
+       let w := rebindHistory first later
+       showList (fun n => n ++ ":" ++ (match w n with | some i => toString i | none => "-")) names
+     | _, _ => "bad-op")
+  | _ => "bad-op"
+
 def handle (line : String) : String :=
   match tokens line with
+  | "iter" :: rest => handleIter rest
+  | "sweeps" :: rest => handleSweeps rest
+  | "binding" :: rest => handleBinding rest
   | "sort" :: rest =>
     (match (lookup (kvs rest) "keys") >>= names?, parseTable rest with
      | some keys, some t => showSort (sortPrecomputed strLe t keys)
